@@ -172,6 +172,3 @@ func exprString(x ast.Expr) string {
 	return ""
 }
 
-func skel(repo string) {
-	fmt.Fprintln(&out, "(* GENERATED by gotrans skel - placeholder until the skeleton extractor lands *)")
-}
